@@ -189,6 +189,38 @@ Definition resolve (s : state) (e : string * string) : option (string * string *
 Definition candidates (ix : index) (s : state) (name : string) : list (option (string * string * inst)) :=
   match slook ix name with None => [] | Some es => map (resolve s) es end.
 
+(* ---------------------------------------------------------------------------------- *)
+(* reference closure: every uid a flow state, a scope, a per-flow list or an action list mentions
+   resolves (dict lookups of the dispatch: flow_states[uid], actions[uid]).  The harness checks it
+   on every real state; clean-up preserves it (Cleanup_proofs.cleanup_preserves_closed). *)
+Definition present (s : state) (u : string) : Prop := slook (flows s) u <> None.
+
+Record closed_refs (s : state) : Prop := {
+  cr_children : forall u i x, slook (flows s) u = Some i -> In x (i_children i) -> present s x;
+  cr_scopes : forall u i k l x, slook (flows s) u = Some i -> slook (i_scopes i) k = Some l -> In x l -> present s x;
+  cr_actions : forall u i a, slook (flows s) u = Some i -> In a (i_actions i) -> slook (actions s) a <> None;
+  cr_by_flow : forall f l, slook (by_flow s) f = Some l ->
+               NoDup l /\ forall u, In u l -> exists i, slook (flows s) u = Some i /\ i_flow i = f
+}.
+
+(* decidable version (evaluated on abstracted real states by the harness) *)
+Fixpoint nodupb (l : list string) : bool :=
+  match l with [] => true | x :: r => negb (smem x r) && nodupb r end.
+
+Definition presentb (s : state) (u : string) : bool := match slook (flows s) u with Some _ => true | None => false end.
+
+Definition refs_okb (s : state) : bool :=
+  nodupb (map fst (flows s)) &&
+  forallb (fun ui =>
+      forallb (presentb s) (i_children (snd ui)) &&
+      forallb (fun kl => forallb (presentb s) (snd kl)) (i_scopes (snd ui)) &&
+      forallb (fun a => match slook (actions s) a with Some _ => true | None => false end) (i_actions (snd ui)) &&
+      match slook (by_flow s) (i_flow (snd ui)) with Some l => smem (fst ui) l | None => false end) (flows s) &&
+  forallb (fun fl =>
+      nodupb (snd fl) &&
+      forallb (fun u => match slook (flows s) u with Some i => String.eqb (i_flow i) (fst fl) | None => false end) (snd fl))
+    (by_flow s).
+
 (* sanity *)
 Definition ex_cfg : cfg := mkCfg 5 true true true ["FINISHED"; "STOPPED"] true true.
 Definition ex_state : state :=
